@@ -2,7 +2,7 @@
 import json
 import sys
 
-from ctlcase import (OPEN, READ, WRITEPAT, DUMP, RETRY, ctl_case, model_term, parse_output, show_data, std_world,
+from ctlcase import (OPEN, READ, WRITEPAT, DUMP, RETRY, CLOSE, ctl_case, model_term, parse_output, show_data, std_world,
                      pattern)
 from vplib import Check, Rng, _clip
 
@@ -107,6 +107,139 @@ def nontrivial(c, out):
     return c.meta["ntx"] >= 2
 
 
+# ---- the session around the transfers: open negotiates the advertised limits; a failing open, a closed
+# ---- handle and a command limit below 24 bytes are refused before anything is put on the wire
+NOT_OPENED, INVALID_DEVICE = 5, 6
+
+
+def build_session(steps, max_cmd=64, max_ack=64, sbrm=None, open_err=None, data_len=1024):
+    """steps: 'open' | 'close' | ('r', off, n) | ('w', off, n, seed).  The expectation is computed by a
+    small state machine written from the property text (opened flag, negotiated limits, memory mirror)."""
+    kw = {} if sbrm is None else {"sbrm": sbrm}
+    w = std_world(max_cmd, max_ack, 5, **kw)
+    w.fill(DATA, data_len, 23)
+    wtoks = list(w.toks)
+    if open_err is not None:
+        wtoks += [7, open_err]
+    optoks, expect = [], []
+    opened = False
+    sends = 0           # expected number of commands on the wire
+    abrm_cached = False
+    lims = []           # per expected command: (max_cmd, max_ack) in force
+    cur = (128, 128)
+    for st in steps:
+        if st == "open":
+            optoks += [OPEN]
+            if opened:
+                expect.append(("ok", None))
+            elif open_err is not None:
+                expect.append(("err", None))
+            else:
+                n = 5 if abrm_cached else 6
+                lims += [cur] * n
+                sends += n
+                abrm_cached = True
+                opened = True
+                cur = (max_cmd, max_ack)
+                expect.append(("ok", None))
+        elif st == "close":
+            optoks += [CLOSE]
+            opened = False
+            expect.append(("ok", None))
+        elif st[0] == "r":
+            _, off, n = st
+            optoks += [READ, DATA + off, n]
+            if not opened:
+                expect.append(("err", NOT_OPENED))
+            elif cur[0] < 24 and n > 0:
+                expect.append(("err", INVALID_DEVICE))
+            else:
+                k = -(-n // max(1, min(cur[1] - 12, 65535)))
+                lims += [cur] * k
+                sends += k
+                expect.append(("ok", show_data(w.read(DATA + off, n))))
+        else:
+            _, off, n, seed = st
+            optoks += [WRITEPAT, DATA + off, n, seed]
+            if not opened:
+                expect.append(("err", NOT_OPENED))
+            elif cur[0] <= 20 and n > 0:
+                expect.append(("err", None))
+            else:
+                k = -(-n // max(1, cur[0] - 20))
+                lims += [cur] * k
+                sends += k
+                w.write(DATA + off, pattern(n, seed))
+                expect.append(("ok", None))
+    optoks += [DUMP, DATA, data_len]        # the device memory itself, not through the handle
+    expect.append(("ok", show_data(w.read(DATA, data_len))))
+    meta = dict(session=True, steps=steps, max_cmd=max_cmd, max_ack=max_ack, expect=expect, sends=sends, lims=lims,
+                open_err=open_err, ntx=sends)
+    return ctl_case(wtoks, optoks, meta)
+
+
+def predicate_session(c, out):
+    m = c.meta
+    po = parse_output(out)
+    if po is None:
+        return "harness output unreadable / harness died: %r" % (_clip(out),)
+    res, events, writes = po
+    if any(r[0] == "panic" for r in res):
+        return "operation %d panicked" % [r[0] for r in res].index("panic")
+    exp = m["expect"]
+    if len(res) != len(exp):
+        return "expected %d results, got %d" % (len(exp), len(res))
+    for i, (r, e) in enumerate(zip(res, exp)):
+        if r[0] != e[0]:
+            return "step %d: expected %s, got %r" % (i, e[0], r[:2])
+        if e[0] == "err" and e[1] is not None and list(r[1:]) != [e[1]]:
+            return "step %d: refused with error class %r, expected %d" % (i, r[1:], e[1])
+        if e[0] == "ok" and e[1] is not None and list(r[1]) != list(e[1]):
+            return "step %d returned other bytes than device memory" % i
+    sends = [e for e in events if e[0] == "send"]
+    if len(sends) != m["sends"]:
+        return "%d commands on the wire, %d expected (a refused operation must send nothing)" % (len(sends), m["sends"])
+    k = -1
+    for e in events:
+        if e[0] == "send":
+            k += 1
+            if e[1] > m["lims"][k][0]:
+                return "command %d is %d bytes, limit in force is %d" % (k, e[1], m["lims"][k][0])
+        elif e[0] == "recv":
+            if e[1] > m["lims"][k][1] and not (sends[k][2] == 0x0802 and e[1] == 16):
+                return "acknowledge to command %d is %d bytes, limit in force is %d" % (k, e[1], m["lims"][k][1])
+    return None
+
+
+def gen_sessions(ck):
+    rng = Rng(ck.seed + 77)
+    cases = []
+    rd = ("r", 5, 100)
+    wr = ("w", 9, 50, 4)
+    # a failing open: nothing on the wire, the handle stays closed
+    for e in (1, 2, 3, 4, 5, 6):
+        cases.append(build_session(["open", rd, wr], open_err=e))
+    # closed handle, close / reopen
+    cases.append(build_session([rd, wr]))
+    cases.append(build_session(["open", rd, "close", rd, wr, "open", rd, wr]))
+    cases.append(build_session(["open", "open", rd, "close", "close", "open", wr]))
+    # advertised limits are the limits used, wherever the SBRM lies
+    for (mc, ma) in [(24, 13), (30, 40), (128, 128), (129, 127), (500, 20), (4096, 70000), (1 << 16, 1 << 16)]:
+        for sb in (None, 0x8000, 0x7FFF0000, (1 << 40) + 8):
+            cases.append(build_session(["open", ("r", 1, 700), ("w", 3, 300, 9)], max_cmd=mc, max_ack=ma, sbrm=sb))
+    # a command limit below a ReadMem command: reads refused, nothing sent
+    for mc in (0, 1, 12, 20, 21, 23):
+        cases.append(build_session(["open", rd, ("r", 0, 0)], max_cmd=mc, max_ack=64))
+    for _ in range(6 if ck.tier == "quick" else 80):
+        steps = []
+        for _i in range(rng.range(2, 8)):
+            steps.append(rng.choice(["open", "close", ("r", rng.below(200), rng.below(300)),
+                                     ("w", rng.below(200), rng.below(300), rng.below(256))]))
+        cases.append(build_session(steps, max_cmd=rng.choice([24, 31, 64, 300]), max_ack=rng.choice([13, 20, 64, 300]),
+                                   open_err=rng.choice([None, None, None, 2])))
+    return cases
+
+
 def gen_cases(ck):
     rng = Rng(ck.seed)
     quick = ck.tier == "quick"
@@ -205,5 +338,11 @@ def main():
     if only:
         ck.compare([cases[i] for i in only], [impl[i] for i in only], None, predicate, nontrivial,
                    family="request-id wrap (implementation + predicate only in the quick tier)")
+    sess = gen_sessions(ck)
+    impl_s = ck.run_impl(binary, [c.line for c in sess], jobs=16, big_stack=True)
+    model_s = ck.run_model_terms(["ControlRun"], [model_term(c) for c in sess], per_eval=1, jobs=16)
+    ck.compare(sess, impl_s, model_s, predicate_session, lambda c, out: True,
+               family="sessions: open negotiates the advertised limits / refused before the wire")
     ck.dist["transactions"] = sum(c.meta["ntx"] for c in cases)
+    ck.dist["session cases"] = len(sess)
     ck.finish()
